@@ -433,6 +433,7 @@ func TestCheck(t *testing.T) {
 		rng := r.Rand("mut", i)
 		judgeBytes(r, "mut", mutate(rng, reflabel.Encode(genNames(rng))))
 		judgeBytes(r, "web", reflabel.Web(rng))
+		judgeBytes(r, "boundary", reflabel.Boundary(rng))
 	}
 	// (3b) committed corpus: replay + mutants
 	corp := mon.Corpus("label")
